@@ -341,9 +341,15 @@ func cmdCheck(args []string) int {
 			"explanation":                   "bounded symbolic execution of the real SSA of /repo (regenerated this run); every branch on symbolic data and every assertion decided by z3; candidates reported only after native replay",
 		},
 	}
-	os.MkdirAll(filepath.Join(verifDir, "evidence"), 0o755)
+	// evidence describes /repo; a run against another tree (BKLSYM_REPO, used
+	// by tools/seedtest.sh) must not overwrite it
+	evDir := filepath.Join(verifDir, "evidence")
+	if repoDir != "/repo" {
+		evDir = filepath.Join(os.TempDir(), "bklsym-evidence-other-tree")
+	}
+	os.MkdirAll(evDir, 0o755)
 	b, _ := json.MarshalIndent(ev, "", " ")
-	if err := os.WriteFile(filepath.Join(verifDir, "evidence", ps.ID+".json"), b, 0o644); err != nil {
+	if err := os.WriteFile(filepath.Join(evDir, ps.ID+".json"), b, 0o644); err != nil {
 		fmt.Fprintln(os.Stderr, err)
 		return 2
 	}
